@@ -10,6 +10,7 @@ import (
 	"time"
 
 	"github.com/openziti/storage/ast"
+	"github.com/openziti/storage/boltz"
 )
 
 // C01 — filter evaluation returns exactly the satisfying entities.
@@ -130,13 +131,17 @@ var c01MemSyms = []*c01Sym{
 	{"si", ast.NodeTypeInt64, true, false}, {"sx", ast.NodeTypeAnyType, true, true},
 	{"sm", ast.NodeTypeAnyType, true, false}, {"sf", ast.NodeTypeFloat64, true, false},
 	{"sd", ast.NodeTypeDatetime, true, false}, {"sq", ast.NodeTypeBool, true, false},
+	// a seekable set of ints (every direct set symbol of a store is seekable, whatever its type)
+	{"sn", ast.NodeTypeInt64, true, true},
 }
 
 func c01MemRow(r *rng) *c01Row {
 	row := &c01Row{scalars: map[string]c01Val{}, sets: map[string][]c01Val{}}
 	for _, s := range c01MemSyms {
 		if s.isSet {
-			row.sets[s.name] = c01RandSet(r, s.typ, s.seekable)
+			// only the string-typed seekable set holds nothing but strings: `sx` (any) and `sn` (int) are
+			// seekable buckets with elements of other types
+			row.sets[s.name] = c01RandSet(r, s.typ, s.name == "ss")
 		} else {
 			row.scalars[s.name] = c01RandVal(r, s.typ)
 		}
@@ -274,8 +279,49 @@ func (g *c01Gen_) lhs(sc *c01Schema, depth int) (*c01Node, ast.NodeType, bool) {
 	return &c01Node{kind: "fn", fn: "count", name: s.name}, ast.NodeTypeInt64, false
 }
 
+// sort fields for a sub-query over `sub`: non-set symbols of a sortable type; one time in illRate any
+// symbol at all (sets, any-typed map elements) or an unknown name
+func (g *c01Gen_) sortFields(sub *c01Schema) []c01Sort {
+	r := g.r
+	var out []c01Sort
+	for i := 1 + r.intn(2); i > 0; i-- {
+		var name string
+		switch {
+		case g.illRate > 0 && r.chance(1, g.illRate):
+			switch r.intn(3) {
+			case 0:
+				name = "nosuch"
+			case 1:
+				if len(sub.sets) > 0 {
+					name = pick(r, sub.sets).name
+					break
+				}
+				fallthrough
+			default:
+				name = pick(r, sub.scalars).name
+			}
+		default:
+			var ok []*c01Sym
+			for _, s := range sub.scalars {
+				if s.typ != ast.NodeTypeAnyType {
+					ok = append(ok, s)
+				}
+			}
+			if len(ok) == 0 {
+				return out
+			}
+			name = pick(r, ok).name
+		}
+		out = append(out, c01Sort{name: name, dir: pick(r, []string{"", "asc", "desc", "desc"})})
+	}
+	return out
+}
+
 func (g *c01Gen_) subQuery(fn, name string, sub *c01Schema, depth int) *c01Node {
 	n := &c01Node{kind: "sub", fn: fn, name: name, q: g.filter(sub, depth)}
+	if g.r.chance(1, 2) {
+		n.sort = g.sortFields(sub)
+	}
 	if g.r.chance(1, 4) {
 		v := int64(g.r.intn(4)) - 1
 		n.skip = &v
@@ -519,7 +565,7 @@ func c01Gen(tier string, seed uint64, out *bufio.Writer) {
 		return
 	}
 	r := newRng(seed)
-	nMem, nBolt := 14000, 5000
+	nMem, nBolt := 12000, 4500
 	depth := 3
 	if tier == "thorough" {
 		nMem, nBolt, depth = 60000, 20000, 5
@@ -542,7 +588,65 @@ func c01Gen(tier string, seed uint64, out *bufio.Writer) {
 		out.WriteByte('\n')
 	}
 	c01GenAtoms(tier, r, out)
+	c01GenSeekMixed(tier, r, out)
 	c01GenBolt(tier, r, nBolt, depth, out)
+}
+
+// the seek shortcut over buckets that hold more than strings: `anyOf(s) = "<what an element renders to>"`
+// for an element of any type of a seekable set (m cases), and of the any-typed set of the bolt universe
+func c01GenSeekMixed(tier string, r *rng, out *bufio.Writer) {
+	n := 60
+	if tier == "thorough" {
+		n = 400
+	}
+	render := func(v c01Val) (string, bool) {
+		s := boltz.FieldToString(v.ft, v.b)
+		if s == nil {
+			return "", false
+		}
+		for i := 0; i < len(*s); i++ {
+			if (*s)[i] < 0x20 || (*s)[i] > 0x7e {
+				return "", false
+			}
+		}
+		return *s, true
+	}
+	for i := 0; i < n; i++ {
+		var rows []*c01Row
+		for j := 0; j < 4; j++ {
+			rows = append(rows, c01MemRow(r))
+		}
+		name := pick(r, []string{"sx", "sx", "ss"})
+		var cands []c01Val
+		for _, row := range rows {
+			cands = append(cands, row.sets[name]...)
+		}
+		if len(cands) == 0 {
+			continue
+		}
+		if lit, ok := render(pick(r, cands)); ok {
+			f := &c01Node{kind: "cmp", op: pick(r, []string{"eq", "eq", "ne"}), l: &c01Node{kind: "fn", fn: pick(r, []string{"anyOf", "anyOf", "allOf"}), name: name},
+				lit: c01Lit{kind: 's', s: lit}}
+			out.WriteString(c01MemLine(c01MemSyms, rows, f))
+			out.WriteByte('\n')
+		}
+	}
+	for i := 0; i < n/2; i++ {
+		ds := c01GenDataset(r)
+		var cands []c01Val
+		for _, e := range ds.rows[0] {
+			cands = append(cands, e.sets["mixed"]...)
+		}
+		if len(cands) == 0 {
+			continue
+		}
+		if lit, ok := render(pick(r, cands)); ok {
+			f := &c01Node{kind: "cmp", op: "eq", l: &c01Node{kind: "fn", fn: "anyOf", name: pick(r, []string{"mixed", "mixed", "boss.mixed"})},
+				lit: c01Lit{kind: 's', s: lit}}
+			out.WriteString(c01BoltLine(ds, 0, f))
+			out.WriteByte('\n')
+		}
+	}
 }
 
 // ------------------------------------------------------------------------------------ exec
